@@ -36,6 +36,10 @@ def make_project(rng, root, nfiles, shared=True):
             text = g.file("Q%d_" % i)[0]
             if shared:
                 text = text.rstrip().rstrip("}") + "\n    " + frag + "\n}\n"
+        # cross-file use: a method declared here and called, unqualified, only from the next file (whatever a scan
+        # derives from "is this method called" must not depend on which files a worker happened to get)
+        cross = "    int only%d(int a) { return a; }\n    int user%d() { return only%d(%d); }\n" % (i, i, (i + 1) % max(nfiles, 1), i)
+        text = text.rstrip().rstrip("}") + "\n" + cross + "}\n"
         rel = "src/p%d/F%d.java" % (i % 3, i)
         files[rel] = text
         p = os.path.join(root, rel)
